@@ -27,6 +27,10 @@ class RemoveObject(SuiteTransformer):
                 return True
             elif isinstance(node, ast.arg) and node.arg == 'object':
                 return True
+            elif isinstance(node, (ast.ExceptHandler, ast.MatchAs, ast.MatchStar, ast.TypeVar, ast.TypeVarTuple, ast.ParamSpec)) and node.name == 'object':
+                return True
+            elif isinstance(node, ast.MatchMapping) and node.rest == 'object':
+                return True
 
         return False
 
